@@ -356,6 +356,13 @@ func (p *Prog) WithRunePredicates(fn *ssa.Function) []*ssa.Function {
 						if h, ok := (*op).(*ssa.Function); ok && isPred(h) {
 							add(h, d-1)
 						}
+						// a character class may be precomputed: a package-level table of bools that is read here
+						// stands for the code that fills it
+						if gl, ok := (*op).(*ssa.Global); ok && boolTable(gl) && p.InRepo(g) {
+							for _, w := range p.tableWriters(gl) {
+								add(w, d-1)
+							}
+						}
 					}
 					// a predicate may be handed over by a private helper of the same package (a constructor
 					// that stores it into the builder): its references count, the helper's own code does not
@@ -383,6 +390,56 @@ func (p *Prog) WithRunePredicates(fn *ssa.Function) []*ssa.Function {
 		}
 	}
 	add(fn, liftDepth)
+	return out
+}
+
+// boolTable: a package-level array, slice or map whose elements are bools.
+func boolTable(g *ssa.Global) bool {
+	pt, ok := g.Type().Underlying().(*types.Pointer)
+	if !ok {
+		return false
+	}
+	var el types.Type
+	switch t := pt.Elem().Underlying().(type) {
+	case *types.Array:
+		el = t.Elem()
+	case *types.Slice:
+		el = t.Elem()
+	case *types.Map:
+		el = t.Elem()
+	default:
+		return false
+	}
+	b, ok := el.Underlying().(*types.Basic)
+	return ok && b.Kind() == types.Bool
+}
+
+// tableWriters: the functions of the global's package that store into an element of it.
+func (p *Prog) tableWriters(g *ssa.Global) []*ssa.Function {
+	if g.Pkg == nil {
+		return nil
+	}
+	var out []*ssa.Function
+	for _, f := range p.FuncsMatching(func(_ string, f *ssa.Function) bool { return f.Pkg == g.Pkg }) {
+		writes := false
+		for _, b := range f.Blocks {
+			for _, in := range b.Instrs {
+				switch x := in.(type) {
+				case *ssa.Store:
+					if ia, ok := x.Addr.(*ssa.IndexAddr); ok && DerivesFrom(ia.X, func(v ssa.Value) bool { return v == g }) {
+						writes = true
+					}
+				case *ssa.MapUpdate:
+					if DerivesFrom(x.Map, func(v ssa.Value) bool { return v == g }) {
+						writes = true
+					}
+				}
+			}
+		}
+		if writes {
+			out = append(out, f)
+		}
+	}
 	return out
 }
 
